@@ -43,7 +43,7 @@ struct ticket_spinlock {
 
 	bool is_locked() {
 		return __atomic_load_n(&serving_ticket_, __ATOMIC_RELAXED)
-			< __atomic_load_n(&next_ticket_, __ATOMIC_RELAXED);
+			!= __atomic_load_n(&next_ticket_, __ATOMIC_RELAXED);
 	}
 
 	void unlock() {
